@@ -9,7 +9,7 @@ from ..core.report import AnalysisError
 from ..frontend.pyfront import Repo
 
 LEVEL = 'other'
-TECHNIQUE = 'abstract interpretation of calculate_terms / collapse_modes over the extracted eccentricity and inclination tables (loops unrolled over all modes); per-term and summed identities decided by polynomial identity testing; registry wiring by resolved callee identity; sign analysis of the tables by exact root isolation; entry-point argument flow; in-place-argument lint'
+TECHNIQUE = 'abstract interpretation of calculate_terms / collapse_modes over the extracted eccentricity and inclination tables (loops unrolled over all modes); per-term and summed identities decided by polynomial identity testing; registry wiring by resolved callee identity; sign analysis of the tables by exact root isolation; entry-point argument flow with tolerance tests on caller data forked (both outcomes are paths) and a second pass with array inputs (arrays as mutable cells); in-place-argument and stored-alias lints'
 LEVEL_TEXT = ('The mode summation is interpreted symbolically for whole (truncation, l_max, obliquity on/off) configurations, every (l,m,p,q) term is captured, and the '
               'heating/torque relations, the frequency-signature grouping, the synchronous-circular zero and the classical 21/2 limit are decided as exact identities in '
               'n, spin, e, I, a, R and per-frequency complex compliances.')
